@@ -12,7 +12,7 @@ import bibgen
 from props.base import to_request, corpus_for  # noqa: F401
 
 ID = 'C02'
-LEAN_MODULES = ['PybtexModel.Props.C02', 'PybtexModel.Props.C02x']
+LEAN_MODULES = ['PybtexModel.Props.C02', 'PybtexModel.Props.C02x', 'PybtexModel.Props.C02y']
 THEOREMS = {
     'C02_person_roundtrip': 'persons: for every person satisfying the explicit predicate WFPerson, Person(_format_name(p)) = Person(str(p)) = p (same five token lists, nothing reported) and both texts coincide',
     'C02_person_roundtrip_comma_needed': 'persons: kernel-evaluated witnesses for repair C02-1 - "Last, Jr" is read with Jr as first name and "World Bank" with World as first name, "Last, Jr," and "World Bank," are read back correctly',
@@ -48,6 +48,12 @@ THEOREMS = {
     'C02_xml_text_lexical': 'BibTeXML text, lexical level, EVERY string, no hypotheses: escape(s) is read back as s by the reference reading of character data (Spec xmlUnescape: five predefined entities + three character references, compared with expat by the op xmlesc), quoteattr(s) is a quoted value free of its own quote character that denotes s and contains no literal tab / newline / return. Tags are written raw and stay under the per-tree hypothesis',
     'C02_xml_text_example': 'BibTeXML text: the exact characters of to_string("bibtexml") (indentation, xmlns declaration on the first element only, attribute quoting, empty element, empty role skipped, preamble not written) and of the declaration written by write_stream, on an example (kernel evaluation of the model compared with the real writer by the op xmltext)',
     'C02_tables_agree': '[model wiring] the constants the models hard-code equal the tables regenerated on every run from latexcodec (all BMP code points, every 16th above), xml.sax.saxutils, XMLGenerator and _PrettyXMLWriter (Gen/C02Tables.lean): the five characters and their images, space-eating after ~ only, UTF-8, escape / quoteattr images, namespace, XML declaration, indentation width 4, the five part names',
+    'C02_domain_percent_wider': 'wider chain domain inDomainP (= inDomain with WFDbP in place of WFDb for BibTeX): contains inDomain for every format and database, coincides with it for YAML / BibTeXML, and is strictly wider for BibTeX (kernel-evaluated database with % in the preamble: in inDomainP, not in inDomain)',
+    'C02_bibtex_roundtrip_percent_any': 'bibtex on WFDbP, encoder a parameter: C02_bibtex_roundtrip_percent for ANY encoder that leaves strings free of # % & _ ~ unchanged (hypothesis henc, the one of C02_bibtex_roundtrip) - writer succeeds, text read back with nothing raised or reported, same entries, same preamble as one string; hypotheses: henc, WFDbP d. Not proved: anything about # & _ ~, or % outside the preamble',
+    'C02_chain_percent': 'chains on the wider domain (C02_chain with inDomainP): hypotheses - encoder leaves # % & _ ~-free strings alone (henc), d in inDomainP f for every format of the list (BibTeX: WFDbP, preamble may contain %), serialiser LosslessOn every (format, database) of stages true fs d (nothing asked for BibTeX hops); conclusion - chain S true fs d = ok (chainDb fs d): entries unchanged, preamble one string with its percent signs, [] iff BibTeXML on the way. Final database only (steps: C02_chain_steps_percent)',
+    'C02_lower_percent': 'lower-casing on the wider domain (C02_lower with inDomainP, preserve_case=False, at least two formats): hypotheses henc, d in inDomainP of every format, LosslessOn along stages false; conclusion - the chain succeeds, entries = entries of lowerSpec d, preamble = that of chainDb (percent signs kept)',
+    'C02_chain_steps_percent': 'nothing reported on the way, wider domain (C02_chain_steps with inDomainP, both preserve_case modes): hypotheses henc, d in inDomainP of every format, LosslessOn along stages; conclusion - chainLog computes chain (no hypotheses), every step is written without error and read back as cleanRead (canonFor f written-db) with no bad name / repeated key / other report, lower() reports nothing',
+    'C02_chain_percent_latex': 'the three percent-domain chain theorems with the modelled encoder: for every Serial with encode = encodeLatex (hypothesis hS) the conclusions of C02_chain_percent, C02_lower_percent and of the second conjunct of C02_chain_steps_percent hold with NO encoder hypothesis; remaining hypotheses: inDomainP for every format, per-tree LosslessOn for the YAML / XML library. That encodeLatex is latexcodec stays differential testing + C02_tables_agree',
     'C02_chain_steps_nonvacuous': 'the per-tree hypothesis is strictly weaker than losslessness on every tree: a serialiser refusing every text with U+0085 (as PyYAML does) is NOT lossless everywhere, yet lossless on all trees of a four-format chain of the example in both preserve_case modes, so C02_chain / C02_lower / C02_chain_steps apply to it',
 }
 RULE = ('databases as JSON (entries with key, type as written, ordered fields, ordered roles with persons as five token lists, preamble list) '
@@ -1343,4 +1349,4 @@ LEVEL_NOTE = ('Modelled and proved: pybtex\'s writer / reader / lower / convert 
               '(BibTeXML role detection case-insensitive), C02-3 (BibliographyData.__repr__ no longer corrupted by keys occurring earlier in the text), C02-4 '
               '(Entry.__repr__ shows the type as written; harness only, repr is not modelled); Model/Names.lean Person.toStr is the pre-repair __str__ (C04 owns '
               'it) - the theorems use BibWrite.personStr. Trusted: Lean kernel; axioms propext/Classical.choice/Quot.sound; the tie between models and code is '
-              'differential testing. Round 2: latexcodec is no longer a bare hypothesis for the BibTeX theorems with suffix _latex (the modelled encoder encodeLatex stands in the statement; its tie to latexcodec is the op encode / encodeenc and the regenerated table, 131072 code points probed per run); inDomain / WFDbQ-noFinding still exclude a percent sign in the preamble although it survives: C02_bibtex_roundtrip_percent proves the round trip on the wider WFDbP (single BibTeX step; the chain theorems are not restated for it), the oracle checks such preambles and the matcher of C02-five-characters no longer covers them; the BibTeXML TEXT model covers UTF-8 only; tags are written raw (no theorem: per-tree hypothesis); the reference reading xmlUnescape / xmlAttrValue is a Spec (8 references), compared with expat where both accept.')
+              'differential testing. Round 2: latexcodec is no longer a bare hypothesis for the BibTeX theorems with suffix _latex (the modelled encoder encodeLatex stands in the statement; its tie to latexcodec is the op encode / encodeenc and the regenerated table, 131072 code points probed per run); inDomain / WFDbQ-noFinding still exclude a percent sign in the preamble although it survives: C02_bibtex_roundtrip_percent proves the round trip on the wider WFDbP (single BibTeX step; the chain theorems are restated on it in Props/C02y.lean: C02_chain_percent, C02_lower_percent, C02_chain_steps_percent, C02_chain_percent_latex, with inDomainP = inDomain with WFDbP for BibTeX), the oracle checks such preambles and the matcher of C02-five-characters no longer covers them; the BibTeXML TEXT model covers UTF-8 only; tags are written raw (no theorem: per-tree hypothesis); the reference reading xmlUnescape / xmlAttrValue is a Spec (8 references), compared with expat where both accept.')
